@@ -97,6 +97,20 @@ TRespond ==
           ELSE LET t == CHOOSE x \in toks : TRUE IN
                Step(ev, IF ev.res # "ok" THEN "apierr:respond" ELSE "", Respond(S, t, ev.ser))
 
+\* enqueue_responses: respond one by one (the crate stops at the first failure; none is expected)
+RECURSIVE RespondAll(_, _)
+RespondAll(SS, items) ==
+    IF items = <<>> THEN [S |-> SS, bad |-> ""]
+    ELSE LET it == Head(items)
+             toks == {t \in SS.outst : t.owner = it.c /\ t.tag = it.tag}
+         IN IF toks = {} THEN [S |-> SS, bad |-> "token:unknown"]
+            ELSE RespondAll(Respond(SS, CHOOSE x \in toks : TRUE, it.ser), Tail(items))
+TRespondMany ==
+    /\ Ev("respond_many") /\ Common
+    /\ LET ev == Rec[l]
+           r == RespondAll(S, ev.items)
+       IN Step(ev, IF r.bad # "" THEN r.bad ELSE IF ev.res # "ok" THEN "apierr:respond" ELSE "", r.S)
+
 \* flush_outgoing_writes in the determinate region: every write is accepted in full
 \* unless the peer is gone
 RECURSIVE FlushAllFull(_, _)
@@ -198,7 +212,7 @@ TPoll ==
              ELSE S' = Sweep(r.S) /\ UNCHANGED <<dead, nbad>>
 
 Next == TReset \/ TEndHist \/ TConnect \/ TSend \/ TRecv \/ TClose \/ TShutWr \/ TShutRd \/ TKill \/ TSetLimit
-        \/ TRespond \/ TFlush \/ TFdCount \/ TPoll
+        \/ TRespond \/ TRespondMany \/ TFlush \/ TFdCount \/ TPoll
 Spec == Init /\ [][Next]_vars
 
 \* the safety invariants of the server model hold in every state of every validated history
